@@ -306,9 +306,6 @@ Definition kwo_form (ns : list name) (pok kwo : list param) : list param :=
 Definition va_form (ns : list name) (pok : list param) (va : option param) : option param :=
   if forallb (nh ns) pok then va else None.
 
-Lemma in_names (q : param) l : In q l -> In (pname q) (names_of l).
-Proof. intros H. unfold names_of. apply in_map. exact H. Qed.
-
 Lemma filter_nh_ext x ns l : ~ In x (names_of l) -> filter (nh (x :: ns)) l = filter (nh ns) l.
 Proof.
   intros H. apply filter_ext_in. intros q Hq. apply nh_cons_ne. intros E. apply H. rewrite <- E.
